@@ -370,7 +370,7 @@ PLAN['C02'] = mk_e2(
     GEN_FUNCS,
     'Bounded symbolic verification of generated deserializers: for each corpus schema and each enumerated instance shape the solver shows valid(S, v) => T_S::deserialize(v) is Ok for all leaf values.')
 PLAN['C03'] = mk_e2(
-    'C03', lambda tier, rng: e2_select('C03', tier, rng, r'_rt_(pt|defaults|withenum|triple|pair|nullable_obj|ints|renamed|nulldef|grid_bool|grid_int|grid_str|grid_str2|optcomp)_p$|_rt_optcomp_(p0|p2)$|_rt_(pt|defaults|renamed|nulldef|grid_str2)_p0$|_rt_(defaults|renamed|grid_str|withenum)_pe$|_rt_events_v(0|2|3|4)$|_in_|_id_\w+$', 5),
+    'C03', lambda tier, rng: e2_select('C03', tier, rng, r'_rt_(pt|defaults|withenum|triple|pair|nullable_obj|ints|renamed|nulldef|grid_bool|grid_int|grid_str|grid_str2|opttuple|optpair)_p$|_rt_(opttuple|optpair)_p0$|_rt_(pt|defaults|renamed|nulldef|grid_str2)_p0$|_rt_(defaults|renamed|grid_str|withenum)_pe$|_rt_events_v(0|2|3|4)$|_in_|_id_\w+$', 5),
     'bounded symbolic execution + SAT (Kani/CBMC) of generated Deserialize -> Serialize -> Deserialize over symbolic valid instances',
     'bounded symbolic verification (Kani/CBMC) of the round trip through generated code for a stated corpus: declared members are kept with equal values, only null/empty optional members are dropped, only schema defaults are added, and serializing the defaults-filled instance again reproduces the same document',
     GEN_FUNCS,
